@@ -1,7 +1,7 @@
 from props import TB_COMMON
 ENTRY = dict(
     level="proof",
-    level_text=("Lean 4: igDecide (fork) places a token on exactly the flows whose condition is true, else on the default "
+    level_text=("ENGINE LEVEL (Props/EngineSteps): an arrival at an inclusive gateway never continues by itself (incl_step_holds); the decision is taken when the work list is empty (settleIncl over the kernel). KERNEL: Lean 4: igDecide (fork) places a token on exactly the flows whose condition is true, else on the default "
                 "alone, else none (error), for all lists; the join of a flat inclusive block (counting abstraction of trySync "
                 "over the fork's cohort) releases nothing while a token of the fork activation has neither arrived nor ended, "
                 "and exactly once when the last one does (window theorem, any number of branches, any order, branches ending "
@@ -26,7 +26,7 @@ ENTRY = dict(
                 "lock (that is the defect D33), so the join theorem is conditional on a fresh view there; arrivals while a "
                 "probing round is in progress are not modelled"),
     technique="Lean 4 proof (fork kernel, join window theorem, kernel-checked witness) + exhaustive lock-step replay",
-    lean_modules=["Bpmn.Props.C05", "Bpmn.Props.C05Tracker", "Bpmn.Props.EngineCurrent"],
+    lean_modules=["Bpmn.Props.EngineSteps", "Bpmn.Props.C05", "Bpmn.Props.C05Tracker", "Bpmn.Props.EngineCurrent"],
     families=["c05", "c05d", "c05n", "c01re", "c01patient", "c05trk"],
     harness_files=["c03.go", "c01re.go", "c01patient.go"],
     exhaustive=True,
